@@ -7,6 +7,7 @@ import (
 	"errors"
 	"fmt"
 	"net"
+	"os"
 	"strconv"
 	"strings"
 	"sync"
@@ -85,6 +86,16 @@ func c41GroupFor(beh string) *c41Group {
 	if g := c41Groups[beh]; g != nil {
 		return g
 	}
+	g, closers := c41BuildGroup(beh)
+	if g != nil {
+		c41Keep = append(c41Keep, closers)
+		c41Groups[beh] = g
+	}
+	return g
+}
+
+// c41BuildGroup creates the endpoints of one behaviour string on a port of their own (caller holds c41Mu).
+func c41BuildGroup(beh string) (*c41Group, []func()) {
 	for attempt := 0; attempt < 30; attempt++ {
 		g := &c41Group{hangOK: true}
 		var opened []func()
@@ -132,11 +143,27 @@ func c41GroupFor(beh string) *c41Group {
 				g.hangOK = false
 			}
 		}
-		c41Keep = append(c41Keep, opened)
-		c41Groups[beh] = g
-		return g
+		return g, opened
 	}
-	return nil
+	return nil, nil
+}
+
+// c41SynSent counts the sockets of this process's network namespace that are in SYN_SENT towards 127.0.1.x:port,
+// i.e. the connect attempts in progress at the endpoints of one (private) group, as the kernel sees them.
+func c41SynSent(port int) int {
+	b, err := os.ReadFile("/proc/net/tcp")
+	if err != nil {
+		return -1
+	}
+	suffix := fmt.Sprintf("01007F:%04X", port) // 127.0.1.x little-endian: xx01007F
+	n := 0
+	for _, ln := range strings.Split(string(b), "\n") {
+		f := strings.Fields(ln)
+		if len(f) > 3 && f[3] == "02" && strings.HasSuffix(f[2], suffix) {
+			n++
+		}
+	}
+	return n
 }
 
 type c41Resolver struct {
@@ -237,6 +264,7 @@ func init() {
 			"rotation counter left natural or set through an exported setter to values around multiples of n and around 2^32 (wrap-around), 1..3 consecutive dials; " +
 			"to: timeout paths (deadline already passed, hanging connect, timer while waiting for a slot, waiting 3.6 s for the only slot and THEN hanging in connect - the timeout still counts from the call, hanging resolver) with and without DNS resolution; " +
 			"sem: every combination of DisableDNSResolution x DNSCacheDuration zero/set x LocalAddr x Resolver nil/fake, Concurrency N in 1..3 with N hanging dials holding every slot, further dials to an accepting endpoint that must time out without connecting, waiters that must get the freed slots. " +
+			"multi: M > N simultaneous dials to a host whose 1..4 addresses refuse or hang in every order (fail-over attempts), on endpoints private to the case: the connect attempts in progress are counted by the kernel (sockets in SYN_SENT towards the endpoints, /proc/net/tcp) and must never exceed N. " +
 			"non-trivial = rotation over >=2 addresses with a refusing one / any sem or timeout scenario; distinct = distinct input",
 		Parallel:   true,
 		Exhaustive: func(t string) bool { return false },
@@ -246,7 +274,7 @@ func init() {
 			"Go timers / context cancellation fire within the slack (3 s upper bound checked, lower bound T-10ms)",
 			"a timeout that happens inside the Resolver is returned as the resolver's own error (no upstream address exists yet); only its timeliness is checked",
 			"number of resolved addresses of one host < 2^32",
-			"the concurrency bound is observed at the endpoints (no connection reaches an accepting endpoint while all N slots are held by hanging dials) and through len(concurrencyCh)",
+			"the concurrency bound is observed at the endpoints (no connection reaches an accepting endpoint while all N slots are held by hanging dials; number of sockets in SYN_SENT towards a case's private endpoints as listed by /proc/net/tcp) and through len(concurrencyCh)",
 		},
 		Build: func(kind string, a [][]byte) *Case {
 			switch kind {
@@ -511,6 +539,24 @@ func init() {
 						}
 						return Ok()
 					}}
+			case "multi":
+				// args: Concurrency N, number of simultaneous dials M, behaviour per resolved address (r/h), option mask
+				if len(a) < 4 {
+					return nil
+				}
+				n, _ := strconv.Atoi(string(a[0]))
+				m, _ := strconv.Atoi(string(a[1]))
+				opts, _ := strconv.Atoi(string(a[3]))
+				beh := string(a[2])
+				if n < 1 || n > 4 || m < 1 || m > 8 || len(beh) < 1 || len(beh) > 4 || strings.Trim(beh, "rh") != "" || !strings.Contains(beh, "h") {
+					return nil
+				}
+				for try := 0; try < 3; try++ {
+					if c := c41Multi(n, m, beh, opts&6); c != nil {
+						return c
+					}
+				}
+				return nil
 			case "sem":
 				if len(a) < 3 {
 					return nil
@@ -588,6 +634,19 @@ func init() {
 			}
 			for i := 0; i < 6*mult; i++ {
 				emit("sem", N(1+r.Intn(3)), N(1+r.Intn(3)), N(r.Intn(4)), N(r.Intn(16)))
+			}
+			// hosts with several addresses of mixed behaviour: the bound counts every connect attempt of every Dial
+			for _, beh := range []string{"rh", "hr", "rrh", "rhr", "hh", "rhh"} {
+				for nn := 1; nn <= 2; nn++ {
+					emit("multi", N(nn), N(nn+1+r.Intn(2)), B(beh), N(2*r.Intn(4)))
+				}
+			}
+			if tier == "thorough" {
+				for _, beh := range []string{"rh", "hr", "rrh", "rhr", "hrr", "rrrh", "rhrh", "h"} {
+					for nn := 1; nn <= 3; nn++ {
+						emit("multi", N(nn), N(nn+1+r.Intn(3)), B(beh), N(2*r.Intn(4)))
+					}
+				}
 			}
 			emit("sem", N(1), N(2), N(2), N(1))
 			emit("sem", N(3), N(2), N(4), N(0))
@@ -827,6 +886,138 @@ func c41Sem(n, e, wn int, hg *c41Group, hold time.Duration, opts int) *Case {
 			}
 			if final.class != "conn" {
 				return Verdict{VSpec, "slot-leaked", fmt.Sprintf("%s: a dial after quiescence returned %s", what, final.class)}
+			}
+			if rep[0] != impl {
+				return Verdict{VCorr, "dial-semaphore-trace", fmt.Sprintf("%s: impl %q model %q", what, impl, rep[0])}
+			}
+			return Ok()
+		}}
+}
+
+// c41Multi: m > n simultaneous dials to a host with several addresses that refuse or hang; every connect attempt of every
+// dial (also the fail-over attempts after a refused address) counts against Concurrency.  The attempts in progress are
+// read from the kernel: sockets in SYN_SENT towards the endpoints of this case.
+func c41Multi(n, m int, beh string, opts int) *Case {
+	c41Mu.Lock()
+	g, closers := c41BuildGroup(beh)
+	c41Mu.Unlock()
+	if g == nil {
+		return nil
+	}
+	defer func() {
+		for _, f := range closers {
+			f()
+		}
+	}()
+	if !g.hangOK || c41SynSent(g.port) < 0 {
+		return &Case{Judge: func([]string) Verdict {
+			return Verdict{VCorr, "hang-endpoint-unavailable", "could not build a hanging endpoint on loopback / read /proc/net/tcp"}
+		}}
+	}
+	d := &fasthttp.TCPDialer{Concurrency: n, Resolver: c41Resolver{n: len(beh)}}
+	optDesc := "defaults"
+	if opts&2 != 0 {
+		d.DNSCacheDuration = 10 * time.Minute
+		optDesc = "DNSCacheDuration=10m"
+	}
+	if opts&4 != 0 {
+		d.LocalAddr = &net.TCPAddr{IP: net.ParseIP("127.0.0.1")}
+		optDesc += ",LocalAddr=127.0.0.1"
+	}
+	defer d.FlushDNSCache()
+	addr := fmt.Sprintf("multi-%s.test:%d", beh, g.port)
+	hold := 700 * time.Millisecond
+	var maxSyn, maxSem int64
+	var maxAt time.Duration
+	stopSample := make(chan struct{})
+	var sampler sync.WaitGroup
+	t0 := time.Now()
+	sampler.Add(1)
+	go func() {
+		defer sampler.Done()
+		for {
+			select {
+			case <-stopSample:
+				return
+			default:
+			}
+			if k := int64(c41SynSent(g.port)); k > maxSyn {
+				maxSyn, maxAt = k, time.Since(t0)
+			}
+			if ln, _ := fasthttp.VerifTCPDialerSem(d); int64(ln) > maxSem {
+				maxSem = int64(ln)
+			}
+			time.Sleep(time.Millisecond)
+		}
+	}()
+	res := make(chan c41Result, m)
+	for i := 0; i < m; i++ {
+		go func() {
+			res <- c41Dial(func() (net.Conn, error) { return d.DialTimeout(addr, hold) }, hold+8*time.Second)
+		}()
+	}
+	var rs []c41Result
+	for i := 0; i < m; i++ {
+		rs = append(rs, <-res)
+	}
+	close(stopSample)
+	sampler.Wait()
+	if want := int64(min(n, m)); maxSyn < want && maxSem <= int64(n) {
+		return nil // the sampler never saw the steady state (machine stalled): no observation, run the case again
+	}
+	semEnd, _ := fasthttp.VerifTCPDialerSem(d)
+	// abstract trace for the model: n calls get a slot and hang until the deadline, the others wait and time out
+	toks := [][]byte{N(n)}
+	for i := 0; i < m; i++ {
+		toks = append(toks, B("s"))
+	}
+	for i := 0; i < m; i++ {
+		toks = append(toks, B(fmt.Sprintf("t%d", i)))
+	}
+	for i := n; i < m; i++ {
+		toks = append(toks, B(fmt.Sprintf("f%d", i)))
+	}
+	for i := 0; i < n && i < m; i++ {
+		toks = append(toks, B(fmt.Sprintf("dt%d", i)))
+	}
+	cls := ""
+	for _, r := range rs {
+		switch r.class {
+		case "timeout":
+			cls += "t"
+		case "conn":
+			cls += "c"
+		case "fail":
+			cls += "f"
+		default:
+			cls += "?"
+		}
+	}
+	impl := fmt.Sprintf("ok sem=%d max=%d %s", semEnd, maxSyn, cls)
+	what := fmt.Sprintf("TCPDialer{Concurrency=%d, %s}: %d simultaneous dials (timeout %v) to a host with %d addresses behaving %q", n, optDesc, m, hold, len(beh), beh)
+	return &Case{Lines: []string{Line("dialsem", toks...)}, Impl: impl, Nontrivial: true, Tags: []string{"multi", "multi-" + beh},
+		Judge: func(rep []string) Verdict {
+			for _, r := range rs {
+				if v := c41Wrapped(r, what); v != nil {
+					return *v
+				}
+			}
+			if maxSyn > int64(n) {
+				return Verdict{VSpec, "dial-beyond-concurrency", fmt.Sprintf("%s: %v after the start the kernel listed %d connect attempts in progress (SYN_SENT) towards the endpoints", what, maxAt, maxSyn)}
+			}
+			if maxSem > int64(n) {
+				return Verdict{VSpec, "dial-beyond-concurrency", fmt.Sprintf("%s: %d dials held a slot at the same time", what, maxSem)}
+			}
+			for i, r := range rs {
+				if r.class != "timeout" || c41IdxOf(r.upstream) < 0 || c41IdxOf(r.upstream) >= len(beh) {
+					return Verdict{VSpec, "timeout-not-reported", fmt.Sprintf("%s: dial %d returned %s upstream %q after %v", what, i, r.class, r.upstream, r.elapsed)}
+				}
+				if r.elapsed > hold+c41Slack {
+					return Verdict{VSpec, "late-return", fmt.Sprintf("%s: dial %d returned after %v", what, i, r.elapsed)}
+				}
+			}
+			if semEnd != 0 {
+				return Verdict{VSpec, "slot-leaked", fmt.Sprintf("%s: %d slots still taken after every dial returned", what, semEnd)}
 			}
 			if rep[0] != impl {
 				return Verdict{VCorr, "dial-semaphore-trace", fmt.Sprintf("%s: impl %q model %q", what, impl, rep[0])}
